@@ -47,7 +47,7 @@ EXTRACTORS = [
 
 
 def E(t):
-  return ast.parse(t, mode='eval').body
+  return U.E(t)
 
 
 ALIAS = {'self.steps_per_quarter': 'SPQ', 'self._steps_per_quarter': 'SPQ', 'self.steps_per_second': 'SPS', 'self._steps_per_second': 'SPS'}
